@@ -77,6 +77,17 @@ theorem slice_writeAt_disjoint (f bs : List Nat) (off o2 n : Nat) (h : off + bs.
   · rw [if_pos hi, if_pos hi, getElem?_writeAt _ _ _ _ h, if_neg (by omega)]
   · rw [if_neg hi, if_neg hi]
 
+theorem slice_writeAt_inside (f bs : List Nat) (off o n : Nat) (h : off + bs.length ≤ f.length)
+    (hin : o + n ≤ bs.length) :
+    ((writeAt f off bs).drop (off + o)).take n = (bs.drop o).take n := by
+  apply List.ext_getElem?
+  intro i
+  rw [slice_getElem?, slice_getElem?]
+  by_cases hi : i < n
+  · rw [if_pos hi, if_pos hi, getElem?_writeAt _ _ _ _ h, if_pos (by omega)]
+    congr 1; omega
+  · rw [if_neg hi, if_neg hi]
+
 /-! ### what the regenerated data says (re-checked by the kernel whenever `Gen/Money.lean` changes) -/
 
 theorem gen_facts :
@@ -84,6 +95,14 @@ theorem gen_facts :
     Gen.Money.moneyOffset + 4 ≤ Gen.Money.recSize ∧ Gen.Money.moneySize = 4 ∧ 0 < MAX ∧
     Gen.Money.recSize * MAX + Gen.Money.recSize < 9223372036854775808 ∧ MAX ≤ 2147483647 ∧
     Gen.Money.littleEndian = true ∧ Gen.Money.valueBits = 32 := by decide
+
+theorem gen_facts_level :
+    Gen.Money.userLevelOffset + 4 ≤ Gen.Money.recSize ∧ Gen.Money.userLevelSize = 4 ∧
+    (Gen.Money.userLevelOffset + 4 ≤ Gen.Money.moneyOffset ∨ Gen.Money.moneyOffset + 4 ≤ Gen.Money.userLevelOffset) := by
+  decide
+
+theorem uidIsValid_iff (u : Int) : uidIsValid u = true ↔ Valid u := by
+  simp [uidIsValid, Valid]
 
 theorem setGuard_iff (u : Int) : rejects Gen.Money.setGuard u = false ↔ Valid u := by
   simp [rejects, Gen.Money.setGuard, cmpOp, Valid, MAX, Gen.Money.maxUsers] <;> omega
@@ -253,6 +272,108 @@ theorem wf_afterSet (s : State) (f : List Nat) (u m : Int) (hs : s.shm.length = 
   refine ⟨by simp [afterSet, hs], _, rfl, ?_⟩
   rw [writeAt_length _ _ _ (by rw [le32_length, hlen]; exact field_inside _ hk), hlen]
 
+/-! ### the whole-record write (`ptt.SetUserPerm` → `passwdSyncUpdate` → `cmbbs.PasswdUpdate`) -/
+
+/-- the state after a successful whole-record write of `rec'` to slot `u`. -/
+def afterSync (s : State) (f : List Nat) (u : Int) (rec' : List Nat) : State :=
+  { s with file := some (writeAt f (Gen.Money.recSize * (u - 1).toNat) rec') }
+
+theorem recSetLevel_length (rec : List Nat) (perm : Nat) (h : rec.length = Gen.Money.recSize) :
+    (recSetLevel rec perm).length = Gen.Money.recSize := by
+  unfold recSetLevel LOFF
+  rw [writeAt_length _ _ _ (by rw [le32_length, h]; exact gen_facts_level.1), h]
+
+theorem recSetMoney_length (rec : List Nat) (v : Int) (h : rec.length = Gen.Money.recSize) :
+    (recSetMoney rec v).length = Gen.Money.recSize := by
+  unfold recSetMoney MOFF
+  rw [writeAt_length _ _ _ (by rw [le32_length, h]; exact gen_facts.2.2.2.1), h]
+
+/-- the Money bytes of a record after `rec.Money = v`. -/
+theorem recSetMoney_money (rec : List Nat) (v : Int) (h : rec.length = Gen.Money.recSize) :
+    ((recSetMoney rec v).drop Gen.Money.moneyOffset).take 4 = le32 v := by
+  unfold recSetMoney MOFF
+  have := slice_writeAt_same rec (le32 v) Gen.Money.moneyOffset (by rw [le32_length, h]; exact gen_facts.2.2.2.1)
+  rwa [le32_length] at this
+
+/-- every other byte of the record is untouched by `rec.Money = v`. -/
+theorem recSetMoney_other (rec : List Nat) (v : Int) (h : rec.length = Gen.Money.recSize) (j : Nat)
+    (hj : ¬ (Gen.Money.moneyOffset ≤ j ∧ j < Gen.Money.moneyOffset + 4)) :
+    (recSetMoney rec v)[j]? = rec[j]? := by
+  unfold recSetMoney MOFF
+  rw [getElem?_writeAt _ _ _ _ (by rw [le32_length, h]; exact gen_facts.2.2.2.1), le32_length, if_neg hj]
+
+theorem setUserPerm_invalid (s : State) (u : Int) (rec : List Nat) (perm : Nat) (hu : ¬ Valid u) :
+    setUserPerm s u rec perm = (s, .ok (0, .invalidUID)) := by
+  have hv : uidIsValid u = false := by
+    cases h : uidIsValid u
+    · rfl
+    · exact absurd ((uidIsValid_iff u).1 h) hu
+  unfold setUserPerm passwdSyncUpdate
+  simp [hv]
+
+theorem setUserPerm_valid (s : State) (f : List Nat) (u v : Int) (rec : List Nat) (perm : Nat)
+    (hf : s.file = some f) (hu : Valid u) (hc : shmAt s u = some v) :
+    setUserPerm s u rec perm =
+      (afterSync s f u (recSetMoney (recSetLevel rec perm) v), .ok (Int.ofNat perm, .none)) := by
+  obtain ⟨h0, hk, _⟩ := valid_bounds u hu
+  have hv : uidIsValid u = true := (uidIsValid_iff u).2 hu
+  unfold setUserPerm passwdSyncUpdate passwdUpdate afterSync
+  simp only [hv, Bool.not_true, Bool.false_eq_true, if_false, moneyOf_valid s u v hu hc, hf, toIdx_valid u hu]
+  rw [if_neg (by omega)]
+  rfl
+
+theorem shmAt_afterSync (s : State) (f : List Nat) (u : Int) (r : List Nat) (v : Int) :
+    shmAt (afterSync s f u r) v = shmAt s v := rfl
+
+theorem moneyBytes_afterSync (f : List Nat) (u v : Int) (r : List Nat) (hf : f.length = Gen.Money.recSize * MAX)
+    (hr : r.length = Gen.Money.recSize) (hu : Valid u) (hv : Valid v) :
+    moneyBytes (writeAt f (Gen.Money.recSize * (u - 1).toNat) r) v =
+      if v = u then (r.drop Gen.Money.moneyOffset).take 4 else moneyBytes f v := by
+  obtain ⟨_, hk, _⟩ := valid_bounds u hu
+  have hlay := gen_facts.2.2.2.1
+  have hin : Gen.Money.recSize * (u - 1).toNat + r.length ≤ f.length := by
+    have h1 : Gen.Money.recSize * ((u - 1).toNat + 1) ≤ Gen.Money.recSize * MAX := Nat.mul_le_mul_left _ hk
+    rw [Nat.mul_succ] at h1
+    rw [hr, hf]; exact h1
+  unfold moneyBytes
+  by_cases h : v = u
+  · subst h
+    rw [if_pos rfl]
+    exact slice_writeAt_inside f r _ _ 4 hin (by rw [hr]; exact hlay)
+  · rw [if_neg h]
+    apply slice_writeAt_disjoint _ _ _ _ _ hin
+    rw [hr]
+    rcases blocks_apart _ _ (slot_ne u v hu hv h) with h1 | h1 <;> omega
+
+theorem record_afterSync (f : List Nat) (u v : Int) (r : List Nat) (hf : f.length = Gen.Money.recSize * MAX)
+    (hr : r.length = Gen.Money.recSize) (hu : Valid u) (hv : Valid v) :
+    record (writeAt f (Gen.Money.recSize * (u - 1).toNat) r) v = if v = u then r else record f v := by
+  obtain ⟨_, hk, _⟩ := valid_bounds u hu
+  have hin : Gen.Money.recSize * (u - 1).toNat + r.length ≤ f.length := by
+    have h1 : Gen.Money.recSize * ((u - 1).toNat + 1) ≤ Gen.Money.recSize * MAX := Nat.mul_le_mul_left _ hk
+    rw [Nat.mul_succ] at h1
+    rw [hr, hf]; exact h1
+  unfold record
+  by_cases h : v = u
+  · subst h
+    rw [if_pos rfl]
+    have := slice_writeAt_same f r _ hin
+    rwa [hr] at this
+  · rw [if_neg h]
+    apply slice_writeAt_disjoint _ _ _ _ _ hin
+    rw [hr]
+    rcases blocks_apart _ _ (slot_ne u v hu hv h) with h1 | h1 <;> omega
+
+theorem wf_afterSync (s : State) (f : List Nat) (u : Int) (r : List Nat) (hs : s.shm.length = MAX)
+    (hlen : f.length = Gen.Money.recSize * MAX) (hr : r.length = Gen.Money.recSize) (hu : Valid u) :
+    WF (afterSync s f u r) := by
+  obtain ⟨_, hk, _⟩ := valid_bounds u hu
+  have hin : Gen.Money.recSize * (u - 1).toNat + r.length ≤ f.length := by
+    have h1 : Gen.Money.recSize * ((u - 1).toNat + 1) ≤ Gen.Money.recSize * MAX := Nat.mul_le_mul_left _ hk
+    rw [Nat.mul_succ] at h1
+    rw [hr, hlen]; exact h1
+  exact ⟨hs, _, rfl, by rw [writeAt_length _ _ _ hin, hlen]⟩
+
 /-! ### the invariant carried along a history -/
 
 /-- slots addressed by a writing operation. -/
@@ -260,6 +381,8 @@ def writes : Op → Int → Prop
   | .set u _, w => w = u
   | .de u _, w => w = u
   | .get _, _ => False
+  | .sync u _ _, w => w = u
+  | .load _, _ => False
 
 /-- on a valid slot `DeUMoney` is a `SetUMoney` of some value (no arithmetic hypothesis). -/
 theorem de_is_a_set (s : State) (u m : Int) (hs : s.shm.length = MAX) (hu : Valid u) :
@@ -276,23 +399,38 @@ theorem de_is_a_set (s : State) (u m : Int) (hs : s.shm.length = MAX) (hu : Vali
   · exact ⟨_, rfl⟩
   · exact ⟨_, rfl⟩
 
-/-- what a step can be: nothing, or a successful set of some value on the valid slot it addresses. -/
+/-- what a step can be: nothing, a successful set of some value on the valid slot it addresses, or a whole-record
+write of the caller's record (with the perm, and with Money taken from SHM) to the valid slot it addresses. -/
 theorem step_shape (s : State) (f : List Nat) (o : Op) (hs : s.shm.length = MAX) (hf : s.file = some f) :
-    (step s o).1 = s ∨ ∃ u m', Valid u ∧ writes o u ∧ (step s o).1 = afterSet s f u m' := by
+    (step s o).1 = s ∨ (∃ u m', Valid u ∧ writes o u ∧ (step s o).1 = afterSet s f u m') ∨
+    (∃ u rec perm v, o = .sync u rec perm ∧ Valid u ∧ shmAt s u = some v ∧
+      (step s o).1 = afterSync s f u (recSetMoney (recSetLevel rec perm) v)) := by
   cases o with
   | set u m =>
       simp only [step]
       by_cases hu : Valid u
-      · right; exact ⟨u, m, hu, rfl, by rw [setUMoney_valid s f u m hs hf hu]⟩
+      · right; left; exact ⟨u, m, hu, rfl, by rw [setUMoney_valid s f u m hs hf hu]⟩
       · left; rw [setUMoney_invalid s u m hu]
   | de u m =>
       simp only [step]
       by_cases hu : Valid u
-      · right
+      · right; left
         obtain ⟨m', e⟩ := de_is_a_set s u m hs hu
         exact ⟨u, m', hu, rfl, by rw [e, setUMoney_valid s f u m' hs hf hu]⟩
       · left; rw [deUMoney_invalid s u m hu]
   | get u => left; rfl
+  | load u => left; rfl
+  | sync u rec perm =>
+      simp only [step]
+      by_cases hu : Valid u
+      · right; right
+        obtain ⟨h0, hk, _⟩ := valid_bounds u hu
+        have hc : ∃ cur, shmAt s u = some cur := by
+          unfold shmAt
+          exact ⟨s.shm[(u - 1).toNat]'(by omega), List.getElem?_eq_getElem (by omega)⟩
+        obtain ⟨v, hc⟩ := hc
+        exact ⟨u, rec, perm, v, rfl, hu, hc, by rw [setUserPerm_valid s f u v rec perm hf hu hc]⟩
+      · left; rw [setUserPerm_invalid s u rec perm hu]
 
 /-- `s` represents the abstract table `b`: SHM holds `b` on every valid slot (int32 values), and `.PASSWDS`
 holds `b` on the valid slots in `D`. -/
@@ -321,6 +459,30 @@ theorem agree_set (s : State) (b : Bal) (D : Int → Prop) (u m : Int) (h : Agre
       rcases hD with hD | hD
       · exact hdisk v hv hD
       · exact absurd hD e
+
+/-- a whole-record write from ANY caller record keeps (indeed establishes, for that slot) the agreement. -/
+theorem agree_sync (s : State) (b : Bal) (D : Int → Prop) (u : Int) (rec : List Nat) (perm : Nat)
+    (h : Agree s b D) (hu : Valid u) (hr : rec.length = Gen.Money.recSize) :
+    (setUserPerm s u rec perm).2 = .ok (Int.ofNat perm, .none) ∧
+    Agree (setUserPerm s u rec perm).1 b (fun w => D w ∨ w = u) := by
+  obtain ⟨⟨hs, f, hf, hlen⟩, hshm, hdisk⟩ := h
+  rw [setUserPerm_valid s f u (b u) rec perm hf hu (hshm u hu).1]
+  have hl1 := recSetLevel_length rec perm hr
+  have hl2 := recSetMoney_length _ (b u) hl1
+  refine ⟨rfl, wf_afterSync s f u _ hs hlen hl2 hu, fun v hv => hshm v hv, ?_⟩
+  intro v hv hD
+  unfold diskAt afterSync
+  simp only [Option.bind_some]
+  rw [moneyBytes_afterSync f u v _ hlen hl2 hu hv]
+  by_cases e : v = u
+  · rw [if_pos e, recSetMoney_money _ _ hl1, dec32_le32 _ (hshm u hu).2, e]
+  · rw [if_neg e]
+    rcases hD with hD | hD
+    · have := hdisk v hv hD
+      unfold diskAt at this
+      rw [hf] at this
+      exact this
+    · exact absurd hD e
 
 theorem agree_mono (s : State) (b : Bal) (D D' : Int → Prop) (h : Agree s b D) (hD : ∀ w, D' w → D w) :
     Agree s b D' := ⟨h.1, h.2.1, fun u hu hd => h.2.2 u hu (hD u hd)⟩
@@ -359,6 +521,22 @@ theorem agree_step (s : State) (b : Bal) (D : Int → Prop) (o : Op) (h : Agree 
         rcases hD with hD | hD
         · exact h.2.2 v hv hD
         · exact absurd hD (by simp [writes])⟩ (fun _ hw => hw)
+  | load u =>
+      simp only [step, specStep]
+      exact agree_mono _ _ _ _ ⟨h.1, h.2.1, fun v hv hD => by
+        rcases hD with hD | hD
+        · exact h.2.2 v hv hD
+        · exact absurd hD (by simp [writes])⟩ (fun _ hw => hw)
+  | sync u rec perm =>
+      simp only [step, specStep]
+      by_cases hu : Valid u
+      · exact (agree_sync s b D u rec perm h hu hno.1).2
+      · rw [setUserPerm_invalid s u rec perm hu]
+        refine ⟨h.1, h.2.1, ?_⟩
+        intro v hv hD
+        rcases hD with hD | hD
+        · exact h.2.2 v hv hD
+        · exact absurd (hD ▸ hv) hu
 
 theorem agree_run (os : List Op) : ∀ (s : State) (b : Bal) (D : Int → Prop), Agree s b D → NoOverflowRun b os →
     Agree (run s os) (specRun b os) (fun w => D w ∨ ∃ o ∈ os, writes o w) := by
@@ -420,5 +598,7 @@ theorem specRun_nonneg (os : List Op) : ∀ (b : Bal), (∀ u, Valid u → 0 ≤
             · exact hb v hv
           · exact hb v hv
       | get w => exact ih _ hb hs
+      | sync w rec perm => exact ih _ hb hs
+      | load w => exact ih _ hb hs
 
 end PttVerif.C20
